@@ -225,6 +225,19 @@ func Split(rng *rand.Rand, m *Mod, k int) []*Mod {
 		}
 	}
 	m.Body.Items = keepI
+	// Identities: a base is looked up in the module as a whole, so in a free partition an
+	// identity may stand in any file of it.
+	if free {
+		var keepID []*Ident
+		for _, id := range m.Idents {
+			if p := rng.Intn(k + 1); p > 0 {
+				subs[p].Idents = append(subs[p].Idents, id)
+			} else {
+				keepID = append(keepID, id)
+			}
+		}
+		m.Idents = keepID
+	}
 	var out []*Mod
 	for i := 1; i <= k; i++ {
 		m.Includes = append(m.Includes, subs[i])
